@@ -42,7 +42,7 @@ pub fn run(rep: &mut Report, thorough: bool) {
             let mode = if rng.chance(1, 4) { Mode::Spin } else { Mode::Pause };
             let pages = rng.range(1, 3);
             let spo = (rng.below(pages * PAGE - 16) & !7) as i64;
-            b.sentinel(&mut rng, mode, &StackShape { pages, sp_offset: spo, ..Default::default() }, None, None);
+            b.sentinel(&mut rng, mode, &StackShape { pages, sp_offset: spo, low: (spo / 8) % 3 == 0, ..Default::default() }, None, None);
         }
         let t = match Target::spawn(b.spec.clone(), &b.opts) {
             Ok(t) => t,
@@ -181,6 +181,21 @@ pub fn run(rep: &mut Report, thorough: bool) {
                             if !mem.iter().any(|d| d.start == th.stack_start && d.size == th.stack_size && d.rva == th.stack_rva) {
                                 rep.violation("C07 thread stack missing from the memory list", json!({"case": case, "tid": th.tid}));
                             }
+                        }
+                    }
+                    // 3b. ground truth: every sentinel thread HAS a non-empty stack (its stack pointer
+                    // was placed inside a readable mapping), so a region holding that stack pointer
+                    // must be in the memory list - a stack the writer silently gave up on is a
+                    // missing region, not an "empty stack"
+                    for s in &b.sentinels {
+                        let tid = t.manifest.tids[s.index];
+                        if !threads.iter().any(|th| th.tid as i32 == tid) {
+                            continue;
+                        }
+                        let sp = s.regs.gpr[RSP];
+                        rep.count("sentinel_stacks_required_in_memory_list", 1);
+                        if !mem.iter().any(|d| d.start <= sp && sp < d.start + d.size as u64) {
+                            rep.violation("C07 no memory region holds the stack of a thread whose stack pointer lies in readable memory", json!({"case": case, "tid": tid, "sp": format!("{sp:#x}"), "stack_mapping": format!("{:#x}+{:#x}", s.stack_base, s.stack_len)}));
                         }
                     }
                     // 4. instruction-pointer window
